@@ -55,7 +55,7 @@ def plan(tier, seed):
             grid[0] = 2
         M = int(rng.integers(16, 48))
         ov, w = pick(rng, [(1.25, 4), (1.25, 4), (2, 4), (2, 4), (1.5, 4), (1.25, 6), (2, 6),
-                           (1.5, 3), (1.75, 5)])
+                           (1.5, 3), (1.75, 5), (1.3, 4.5), (1.4, 3.5), (1.9, 5.5)])
         P.add("acc", grid=grid, M=M, batch=pick(rng, [[], [], [2], [2, 2]]),
               ccls=pick(rng, ["inside", "inside", "integer", "ties", "clustered", "outside"]),
               img=pick(rng, ["gauss", "gauss", "delta", "edge-delta", "const", "expo"]),
